@@ -331,7 +331,11 @@ def _and_then_rewrite(text, report):
         body = text[st[i + 6].start:st[close - 1].end]
         rs = _recv_start(st, i)
         recv = text[st[rs].start:st[i - 1].end]
-        new = f"(match {recv} {{ Ok({param}) => {body}, Err(verif_e) => Err(verif_e) }})"
+        if re.match(r"\s*(Some\s*\(|None\b)", body):
+            # Option::and_then: the closure answers an Option, so the receiver is one
+            new = f"(match {recv} {{ Some({param}) => {body}, None => None }})"
+        else:
+            new = f"(match {recv} {{ Ok({param}) => {body}, Err(verif_e) => Err(verif_e) }})"
         before = text[st[rs].start:st[close].end]
         report.append({"rule": "R3", "before": before, "after": new})
         text = text[:st[rs].start] + new + text[st[close].end:]
